@@ -111,3 +111,68 @@ def quiet_excepthook():
     """Threads that die are recorded by the simulator, not printed."""
     import threading
     threading.excepthook = lambda args: None
+
+
+# ---------------------------------------------------------------------------
+# World construction: Bardolph wired the way light_module.configure() wires
+# it, but on the simulated LAN and without touching log files.
+# ---------------------------------------------------------------------------
+DEFAULT_SETTINGS = {
+    'default_num_lights': None,
+    'sleep_time': 0.1,
+    'refresh_sleep_time': 60,
+    'failure_sleep_time': 20,
+    'light_gc_time': 300,
+    'script_path': 'scripts',
+    'single_light_discover': True,
+    'use_fakes': False,
+    'log_to_console': True,
+}
+
+
+def install_net():
+    if _installed.get('net'):
+        return
+    from . import net
+    net.install()
+    _installed['net'] = True
+
+
+def build_world(sim, population, plan=None, settings=None, discover=True,
+                output='stdout'):
+    """Must be called from inside a simulated thread.
+
+    Binds Settings, Clock (real, on virtual time), Output, LifxLanApi (real
+    lifxlan on the simulated LAN) and a LightSet.  Returns (net, light_set).
+    """
+    from . import net as simnet, bulbs as simbulbs
+    from bardolph.lib import injection, settings as settings_mod, clock
+    from bardolph.lib import std_out_output, object_list_output, i_lib
+    from bardolph.controller import lifx_lan_api, light_set, i_controller
+    from bardolph.runtime import runtime_module
+    import lifxlan
+
+    install_threads()
+    install_net()
+    injection.configure()
+    cfg = dict(DEFAULT_SETTINGS)
+    cfg.update(settings or {})
+    settings_mod.using(cfg).configure()
+    clock.configure()
+    if output == 'stdout':
+        std_out_output.configure()
+    else:
+        injection.bind_instance(
+            object_list_output.ObjectListOutput()).to(i_lib.Output)
+    runtime_module.configure()
+    net = simnet.SimNet(sim, simbulbs.make_bulbs(population), plan)
+    # one LifxLAN for the life of the world, with a seeded source id
+    api = lifx_lan_api.LifxLanApi()
+    api._lifxlan.source_id = 0x5EED0000 + 1
+    injection.bind_instance(api).to(i_controller.LightApi)
+    ls = light_set.LightSet()
+    ok = None
+    if discover:
+        ok = ls.discover()
+    injection.bind_instance(ls).to(i_controller.LightSet)
+    return net, ls, ok
